@@ -138,6 +138,15 @@ fn main() {
             let txt = std::fs::read_to_string(&args[2]).expect("read replay file");
             let v: Value = serde_json::from_str(&txt).expect("parse replay file");
             let case = if v.get("case").is_some() { &v["case"] } else { &v };
+            if case["kind"] == "range" {
+                // re-run a whole index range of a staged check in this process (expected to die)
+                let tier = if case["tier"] == "quick" { Tier::Quick } else { Tier::Thorough };
+                let st = staged_of(case["property"].as_str().unwrap(), tier).unwrap_or_else(|| usage());
+                let acc = (st.run)(tier, case["stage"].as_u64().unwrap() as usize, case["lo"].as_u64().unwrap(), case["hi"].as_u64().unwrap());
+                let v = acc.viols.values().next();
+                println!("REPLAY violated={} :: range survived :: {:?}", v.is_some(), v.map(|v| &v.detail));
+                std::process::exit(if v.is_some() { 1 } else { 0 });
+            }
             match replay_case(case) {
                 Some((violated, obs)) => {
                     println!("REPLAY violated={violated} :: {obs}");
